@@ -68,6 +68,8 @@ def check(case):
 @st.composite
 def cases(draw):
     sp = draw(gen.structural_models(time=True, step=True, delay_prob=3, max_rx=4))
+    from vf.props.c14 import tiny_rate_constants
+    tiny_rate_constants(draw, sp)
     species = sp["species"]
     # volume in a general rate now and then
     for rx in sp["reactions"]:
